@@ -733,6 +733,11 @@ class Interp:
         if kind == "region":
             # whole-slice assignment through deref: treat as content write
             r = cur[1]
+            if isinstance(val, VArray) and val.elems is not None and r.len.is_const() and r.len.c == len(val.elems) \
+                    and r.origin[0] == "place":
+                for i, e in enumerate(val.elems):
+                    self.write_byte(st, r.origin, r.off + i, e)
+                return
             self.havoc_region(st, r)
             return
         # writes through unknown pointers: conservatively ignored for values we do not track;
@@ -873,6 +878,11 @@ class Interp:
         v = self.load(st, cur)
         if isinstance(v, tuple) and v and v[0] == "PTRBYTE":
             return self.deref_ptr_read(st, fr, v[1], place)
+        if isinstance(v, VRegion) and place.get("ty") is not None and v.len.is_const() and v.len.c <= 64:
+            # reading a `[u8; N]` *value* through a reference to it copies the bytes
+            pt = self.rt(place["ty"])
+            if isinstance(pt, dict) and pt["k"] == "array" and pt["len"] == v.len.c and self.is_u8(pt["of"]):
+                return VArray(tuple(self.region_bytes(st, v, v.len.c)), v.len.c, None, "u8")
         return v
 
     def deref_ptr_read(self, st, fr, ptr, place):
@@ -2473,6 +2483,17 @@ class Interp:
                 r = m(call)
                 if r is not NOT_HANDLED:
                     return r
+            # tuple-variant / tuple-struct constructor used as a function value (`.map_err(Error::Io)`)
+            if "::" in fv.path:
+                par, last = fv.path.rsplit("::", 1)
+                adt = self.F.adts.get(par)
+                if adt is not None and adt["kind"] == "enum":
+                    for vi, var in enumerate(adt["variants"]):
+                        if var["name"] == last and len(var["fields"]) == len(args):
+                            return ret_k(st, VAdt(par, vi, tuple(args), None, dty if isinstance(dty, dict) else None))
+                adt = self.F.adts.get(fv.path)
+                if adt is not None and adt["kind"] == "struct" and len(adt["variants"][0]["fields"]) == len(args):
+                    return ret_k(st, VAdt(fv.path, 0, tuple(args), None, dty if isinstance(dty, dict) else None))
         return self.havoc_call(st, args, dty, ret_k, None)
 
     def havoc_call(self, st, args, dty, ret_k, t, callee_body=None):
